@@ -851,7 +851,11 @@ def eval_c13(batches, tier, seed, known, info):
             continue
         # the struct package is imported under a qualifier
         imports = (b['static'] or {}).get('imports') or {}
-        if not any(p == y['defaultPackageName'] and a.split('|')[0] not in ('', '_', '.') for a, p in imports.items()):
+        # (import_path_overrides: the package named by default_package_name is imported from the overriding path)
+        want = {kv['k']: kv['v'] for kv in (y.get('importPathOverrides') or [])}.get(y['defaultPackageName'], y['defaultPackageName'])
+        if want != y['defaultPackageName']:
+            out['coverage_overrides'] = out.get('coverage_overrides', 0) + 1
+        if not any(p == want and a.split('|')[0] not in ('', '_', '.') for a, p in imports.items()):
             out['violations'].append({'kind': 'struct package is not imported under a qualifier', 'batch': b['dir'], 'imports': list(imports)[:10]})
         if (b['static'] or {}).get('package') != y.get('targetPackageName'):
             out['violations'].append({'kind': 'package clause is not the target package', 'batch': b['dir']})
@@ -895,7 +899,8 @@ def eval_c13(batches, tier, seed, known, info):
                 break
         if len(out['samples']) < 2:
             out['samples'].append({'batch': b['dir'], 'ops_compared': len(sops), 'default_package_name': y['defaultPackageName']})
-    out['coverage'] = {'operations_compared_between_layouts': pairs, 'traces_validated_against_impl': pairs}
+    out['coverage'] = {'operations_compared_between_layouts': pairs, 'traces_validated_against_impl': pairs,
+                       'batches_with_import_path_overrides': out.pop('coverage_overrides', 0)}
     return out
 
 
